@@ -96,11 +96,21 @@ def make_substances(rng, n=None, fixtures=True):
                 v = mag * R.PREFIX[R.split_unit(den)[0]]
             else:
                 v = (1.0 / mag) / R.PREFIX[R.split_unit(num)[0]]
-            out.append(S.enzyme(f'enz{i}', f'{v:.6g} {form}'))
+            out.append(declared_enzyme(S, f'enz{i}', f'{v:.6g} {form}'))
     # guarantee at least one liquid (solvents) and, usually, each kind
     if not any(s.is_liquid() for s in out):
         out.append(S.liquid('liqX', 46.07, 0.789))
     return out
+
+
+def declared_enzyme(S, name, activity):
+    """An enzyme declared with the specific-activity string `activity`; the reference keeps its own reading of that string
+    (U per g, by the reference grammar) as a harness-side note on the object, so that the oracle's conversions follow what
+    was *declared*, not what the constructor stored."""
+    e = S.enzyme(name, activity)
+    v, num, den = R.parse_concentration(activity)
+    e._pv_sa = v if (num, den) == ('U', 'g') else 1.0 / v
+    return e
 
 
 def liquids(subs):
@@ -418,6 +428,15 @@ class World:
             custom_labels = rng.random() < 0.25
         rows = [f'r{i}x' for i in range(R_)] if custom_labels else R_
         cols = [f'k{j}' for j in range(C_)] if custom_labels and rng.random() < 0.7 else C_
+        if custom_labels and rng.random() < 0.4:
+            # custom labels that look like default ones: digit strings that are *not* their own 1-based position
+            # (zero-based, offset or right-to-left numbering), letters in reverse order
+            style = rng.choice(['zero', 'offset', 'reverse'])
+            cols = ([str(j) for j in range(C_)] if style == 'zero' else [str(j + 7) for j in range(C_)] if style == 'offset'
+                    else [str(C_ - j) for j in range(C_)])
+            if rng.random() < 0.5:
+                rows = [chr(ord('A') + R_ - 1 - i) for i in range(R_)]
+            M.bucket('C13/custom_labels_that_look_like_default_ones')
         cap = capacity or spell(rng, 10 ** rng.uniform(-5, -3), 'L', prefixes=['u', 'm', 'n', ''])
         step = {'op': 'plate', 'name': name, 'max': cap, 'rows': rows, 'cols': cols}
         res, exc = self.do('Plate.__init__', step, lambda: pp.Plate(name, cap, rows=rows, columns=cols))
@@ -549,6 +568,7 @@ class World:
         q, mode = self.size_request(s.contents, base, room, len(idx), mode)
         step = {'op': 'transfer', 'src': [src, None], 'dst': [dst, seldesc], 'q': q, 'mode': mode}
         kwform = rng.random() < 0.2
+        self.look_first(target)
         res, exc = self.do('Plate.transfer', step, (lambda: pp.Plate.transfer(source=s, quantity=q, destination=target)) if kwform
                            else (lambda: pp.Plate.transfer(s, target, q)))
         if res is not None:
@@ -579,7 +599,11 @@ class World:
         use_plate = sel == slice(None) and seldesc == sel_json(sel) and rng.random() < 0.3
         step = {'op': 'transfer', 'src': [src, None if use_plate else seldesc], 'dst': [dst, None], 'q': q, 'mode': mode}
         source = p if use_plate else sliced
-        res, exc = self.do('Container.transfer', step, lambda: pp.Container.transfer(source, d, q))
+        self.look_first(source)
+        # the same request through either class: Container.transfer(slice, container) and Plate.transfer(slice, container)
+        via_plate = rng.random() < 0.3
+        res, exc = self.do('Plate.transfer' if via_plate else 'Container.transfer', step,
+                           (lambda: pp.Plate.transfer(source, d, q)) if via_plate else (lambda: pp.Container.transfer(source, d, q)))
         if res is not None:
             self.objs[src], self.objs[dst] = res
             self.keep(*res)
@@ -678,6 +702,7 @@ class World:
             s_slice = pobj          # a whole Plate passed directly as the source
             step['src'] = [src, None]
         d_slice = (pobj if same_plate else pd)[dsel]
+        self.look_first(s_slice, d_slice)
         res, exc = self.do('Plate.transfer', step, lambda: pp.Plate.transfer(s_slice, d_slice, q))
         if res is not None:
             r_src, r_dst = res
@@ -884,6 +909,7 @@ class World:
         q = spell(rng, val, base, exact=(mode in ('exact_cap', 'at_current')))
         step = {'op': 'fill_to', 'dst': [target, seldesc], 'solvent': solvent.name, 'q': q, 'mode': mode}
         obj = sub_obj if sub_obj is not None else o
+        self.look_first(obj)
         res, exc = self.do('fill_to', step, lambda: obj.fill_to(solvent, q))
         if res is not None:
             conts = [res] if isinstance(res, pp.Container) else list(res.wells.flatten())
@@ -944,6 +970,32 @@ class World:
             self.twin()
         k = rng.choices(list(w.keys()), list(w.values()))[0]
         return k, ops[k]()
+
+    def look_first(self, *slicers, p=0.25):
+        """Users look at a slice before they use it: query the very slice objects that are then handed to an operation
+        (shape, size, per-well volumes, substances) - a slice object must not behave differently for having been read."""
+        pp = PP()
+        if self.rng.random() >= p:
+            return
+        for sl in slicers:
+            if not isinstance(sl, pp.PlateSlicer):
+                continue
+            M.bucket('C04/slice_queried_before_use')
+            with M.active(self.case):
+                try:
+                    k = self.rng.randrange(4)
+                    if k == 0:
+                        sl.get_volumes()
+                    elif k == 1:
+                        _ = sl.shape, sl.size
+                    elif k == 2:
+                        sl.get_substances()
+                    else:
+                        sl.get()
+                except (MonitorBug, InjectedFault):
+                    raise
+                except Exception:   # noqa
+                    pass
 
     def twin(self):
         """A replicate: a second, distinct object with the same name and - for now - the same state as an existing plate or
